@@ -144,12 +144,25 @@ def collect_rsls(case):
     return rsls
 
 
+# the special functions are total on the reals (li2, nielsen) or on x > 0 (s2): every branch of their argument reduction is admissible
+WIDE = [-37.0, -2.0, -1.5, -1.0, -0.5, -1e-9, 0.0, 1e-9, 0.3, 0.5, 1.0, 1.0 + 1e-9, 1.5, 2.0, 2.0 + 1e-9, 3.7, 1e3]
+
+
 def sample_args(f, rng):
     """Argument tuples for a dispatcher from its first signature."""
     import numba
 
     sig = f.nopython_signatures[0]
     sets = []
+    if f.py_func.__module__.startswith("yadism.coefficient_functions.special"):
+        xs = WIDE + [float(rng.uniform(-3, 4)) for _ in range(6)]
+        if f.py_func.__name__ == "li2":
+            return [(x,) for x in xs]
+        if f.py_func.__name__ == "s2":
+            return [(x,) for x in xs if x > 0]
+        if f.py_func.__name__ == "nielsen":
+            legal = [(n, m) for n in range(1, 5) for m in range(1, 5) if n + m <= 5]
+            return [(n, m, x) for n, m in legal for x in xs] + [(0, 1, 0.3), (3, 3, 0.3), (5, 1, 0.3), (1, 5, 0.3)]
     for _ in range(12):
         args = []
         for t in sig.args:
